@@ -25,11 +25,15 @@ import alloc_cases as ac
 
 
 def plans(tier, rng):
+    """fixed plans + seeded random interleavings of two sources (A, B) and of three (A, B, C)"""
     P = ["seq", "interleaved"]
-    n = 0 if tier == "quick" else 6
-    for _ in range(n):
+    n2, n3 = (3, 2) if tier == "quick" else (8, 6)
+    for _ in range(n2):
         ds = sorted(rng.sample(range(0, 80), 3))
         P.append(("inter", tuple(ds), (rng.randrange(0, 90), rng.randrange(0, 90))))
+    for _ in range(n3):
+        ds = sorted(rng.sample(range(0, 80), 5))
+        P.append(("inter3", tuple(ds), tuple(rng.randrange(0, 90) for _ in range(3))))
     return P
 
 
@@ -79,7 +83,7 @@ def run(chk):
         for plan in P:
             v, sh, fr = one(r, plan)
             chk.cov["evaluations"] += 2
-            pk = plan if isinstance(plan, str) else "inter"
+            pk = plan if isinstance(plan, str) else plan[0]
             hist["plans"][pk] = hist["plans"].get(pk, 0) + 1
             if v == "construct":
                 hist["construct_errors"].append([r.id, (sh or {}).get("construct_error") or
@@ -171,4 +175,6 @@ def replay(chk, path):
     print("one shared operator value:      ", json.dumps(sh, default=repr)[:2500])
     print("fresh operator value per source:", json.dumps(fr, default=repr)[:2500])
     print("identical" if v == "ok" else "DIFFERENT" if v == "diff" else v)
+    if v != "ok":
+        print(f"VIOLATION property=C44 replay={path}")
     return 0 if v == "ok" else 1
